@@ -14,6 +14,7 @@ import (
 	"github.com/postalsys/muti-metroo/internal/protocol"
 	"github.com/postalsys/muti-metroo/internal/recovery"
 	"github.com/postalsys/muti-metroo/internal/transport"
+	"github.com/postalsys/muti-metroo/internal/verifhook"
 )
 
 // PeerInfo contains information about a configured peer.
@@ -296,6 +297,7 @@ func (m *Manager) readLoop(conn *Connection) {
 		frame, err := conn.reader.Read()
 		if err != nil {
 			conn.Close()
+			verifhook.At("peer.read.disconnect", m, conn)
 			m.handleDisconnect(conn, err)
 			return
 		}
